@@ -122,6 +122,9 @@ def run(report, tier, seed, driver, proofs_ok):
             for _ in range(rng.randrange(1, 5)):
                 r = rng.random()
                 w = gen.gen_action_value(rng)
+                if rng.random() < 0.35:
+                    # iam actions next to actions that sort before and after them, in several statements
+                    w = rng.choice(["iam:GetRole", ["ec2:RunInstances", "iam:DeleteRole"], ["iam:Pass*", "s3:GetObject"], "iam:*", ["a4b:*", "iam:Get*", "zocalo:*"], "*"])
                 stmts.append({"allow": rng.random() < 0.6, "action": w if r < 0.6 else None, "notaction": None if r < 0.6 else w})
             api = "allowed" if k < 9 else "iam"
             add(api, {"stmts": stmts}, (lambda s=stmts, api=api: impl.policy(s, api)))
